@@ -206,8 +206,10 @@ def mk_mask(aa, m, ps, o):
 
 def mk_grid(aa, mask):
     """Grid2D of the pixel centres of [mask], fresh or DERIVED (arithmetic, native storage and back, re-wrapped values)"""
-    g = aa.Grid2D.from_mask(mask=mask)
     k = CTX["gprov"]
+    key = ("grid", id(mask), k)
+    if CTX["memo"] is not None and key in CTX["memo"]: return CTX["memo"][key]      # the SAME grid object is used again
+    g = aa.Grid2D.from_mask(mask=mask)
     if k == 1: g = mask.derive_grid.unmasked
     elif k == 2: g = g.native.slim
     elif k == 3: g = aa.Grid2D(values=np.array(g.native), mask=mask)
@@ -216,6 +218,7 @@ def mk_grid(aa, mask):
     elif k == 6: g = g.with_new_array(np.array(g).copy())
     elif k == 7: g = aa.Grid2D(values=np.array(g), mask=mask).native.slim
     CTX["args"].append((g, np.array(g).copy(), mask_fp(g.mask)))
+    if CTX["memo"] is not None: CTX["memo"][key] = g
     return g
 
 def mk_array(aa, vals2d, mask):
@@ -299,7 +302,7 @@ GRID_OPS = ["from_mask", "dg_all_false", "dg_unmasked", "dg_edge", "dg_border", 
             "ds_apply_mask", "ds_noise_scaling", "ds_over_sampling", "ds_trimmed", "ds_simulate", "ds_s2n"]
 
 def gen_inputs(tier, rng):
-    n = 1000 if tier == "thorough" else 36
+    n = 750 if tier == "thorough" else 36
     for i in range(n):
         for op in GRID_OPS:
             H, W = rng.randint(1, 7), rng.randint(1, 8)
@@ -353,7 +356,15 @@ def routes_for(inp):
     """how the structures reach the entry point in the run at o and in the run at o + d (independent choices)"""
     r = random.Random(inp["seed"] * 7 + 3)
     def one(): return (r.choice(MASK_PROVS), r.choice([0, 0, 0, 1, 2, 3, 4, 5, 6, 7]), r.choice([0, 0, 0, 1, 2, 3, 4, 5, 6]))
-    return [one(), one()] if r.random() < 0.8 else [("fresh", 0, 0), ("fresh", 0, 0)]
+    rts = [one(), one()] if r.random() < 0.8 else [("fresh", 0, 0), ("fresh", 0, 0)]
+    if inp["op"] in PROPERTY_OPS and r.random() < 0.4:
+        # entry points that are plain properties of the mask: in ONE of the two runs the object held another array when the property
+        # was first read, and was then edited in place (a stale value shows as a broken translation law)
+        k = r.randrange(2)
+        rts[k] = (r.choice(["edited", "edited_all_false"]),) + rts[k][1:]
+        if rts[1 - k][0].startswith("edited"): rts[1 - k] = ("fresh",) + rts[1 - k][1:]
+    return rts
+PROPERTY_OPS = {"centre", "extent", "zoom_unmasked", "zoomed_around", "zoom_props", "overlay", "dg_unmasked", "dg_all_false", "dg_edge", "dg_border"}
 
 def run_case(inp):
     aa = import_aa()
